@@ -8,7 +8,7 @@ harness support code switches to parsing the real messages (`--features verif_na
 Only a counterexample whose native test FAILS is reported as a violation.
 """
 import os, re, subprocess, shutil, json, time
-from . import stage, run
+from . import stage, run, cex
 
 
 def extract_tests(txt):
@@ -34,34 +34,12 @@ def run_playback(repo_dir, crate, scratch, name_filter, timeout=1200):
     return p.stdout
 
 
-def replay_failed(scratch, r, prop, log=print):
-    """r: HResult with status fail. Fills r.replays / r.nonrepro. Returns #reproduced."""
+def _native_verdicts(scratch, r, prop, tests, repo_dir, log):
+    """tests: list of dict(name, code, desc). Appends them to the scratch harness copy, runs them natively."""
     h = r.h
-    repo_dir = os.path.join(scratch, run.repo_sub(h.cls))
-    td = os.path.join(scratch, "t_replay")
-    if not os.path.isdir(td):
-        stage.fresh_target(td)
-    logpath = os.path.join(scratch, "replay_%s.log" % h.name)
-    res, cerr = run.run_group(repo_dir, h.crate, [h], td, h.cls, logpath,
-                              extra=["-Z", "concrete-playback", "--concrete-playback=print"], mem_extra=8)
-    txt = open(logpath, errors="replace").read()
-    tests = [t for t in extract_tests(txt) if t["fq"] == h.fq and t["kind"] != "cover" and t["name"]]
-    want = set(c.desc for c in r.failed)
-    sel = [t for t in tests if t["desc"] in want] or tests
-    if not sel:
-        why = "solver error/memory cap during trace generation" if "Status: ERROR" in txt else "no test printed"
-        r.nonrepro.append("solver gave no concrete values for the failed check(s) (%s)" % why)
-        return 0
-    # one test per distinct failed description is enough
-    seen, uniq = set(), []
-    for t in sel:
-        if t["desc"] in seen:
-            continue
-        seen.add(t["desc"])
-        uniq.append(t)
     hf = os.path.join(scratch, "harness", os.path.basename(h.file))
     with open(hf, "a") as f:
-        for t in uniq:
+        for t in tests:
             f.write("\n" + t["code"] + "\n")
     try:
         out = run_playback(repo_dir, h.crate, scratch, "kani_concrete_playback_%s_" % h.name)
@@ -69,7 +47,7 @@ def replay_failed(scratch, r, prop, log=print):
         r.nonrepro.append("native replay timed out")
         return 0
     n = 0
-    for t in uniq:
+    for t in tests:
         m = re.search(r"^test \S*%s \.\.\. (\w+)" % re.escape(t["name"]), out, re.M)
         verdict = m.group(1) if m else "missing"
         if verdict == "FAILED":
@@ -78,7 +56,7 @@ def replay_failed(scratch, r, prop, log=print):
             os.makedirs(d)
             open(os.path.join(d, "test.rs"), "w").write(t["code"])
             pm = re.search(r"---- \S*%s stdout ----\n(.*?)(?=\n----|\nfailures:)" % re.escape(t["name"]), out, re.S)
-            json.dump(dict(property=prop, harness=h.fq, harness_file=os.path.relpath(h.file, stage.ROOT),
+            json.dump(dict(property=prop, harness=h.fq, harness_file=os.path.relpath(os.path.join(stage.ROOT, "harness", os.path.basename(h.file)), stage.ROOT),
                            crate=h.crate, cls=h.cls, failed_check=t["desc"], test=t["name"],
                            native_output=(pm.group(1) if pm else "")[-2000:],
                            how="./check %s --replay %s" % (prop, os.path.relpath(d, stage.ROOT))),
@@ -86,9 +64,60 @@ def replay_failed(scratch, r, prop, log=print):
             r.replays.append(d)
             n += 1
         else:
-            tail = "" if m else " (" + out.strip().splitlines()[-1][:200] + ")" if out.strip() else ""
-            r.nonrepro.append("check '%s': native test verdict %s%s" % (t["desc"][:120], verdict, tail))
+            last = out.strip().splitlines()[-1][:200] if (not m and out.strip()) else ""
+            r.nonrepro.append("check '%s': native test verdict %s %s" % (t["desc"][:120], verdict, last))
     return n
+
+
+def replay_failed(scratch, r, prop, log=print):
+    """r: HResult with status fail. Fills r.replays / r.nonrepro. Returns #reproduced."""
+    h = r.h
+    repo_dir = os.path.join(scratch, run.repo_sub(h.cls))
+    # 1. sliced CBMC trace of each failed property (fast), inputs rebuilt from the trace
+    tests = []
+    gf = getattr(r, "goto_file", None)
+    seen = set()
+    if gf and os.path.exists(gf):
+        for k, c in enumerate(r.failed):
+            if c.desc in seen or len(tests) >= 3:
+                continue
+            seen.add(c.desc)
+            try:
+                tr = cex.trace_for_property(gf, c.name, h.cls)
+                if tr is None:
+                    r.nonrepro.append("no trace for %s" % c.name)
+                    continue
+                vals = cex.extract(tr)
+                name = "kani_concrete_playback_%s_s%d" % (h.name, k)
+                tests.append(dict(name=name, desc=c.desc, code=cex.test_code(h.name, name, vals, c.desc)))
+            except Exception as e:  # noqa
+                r.nonrepro.append("trace extraction failed for %s: %s" % (c.name, str(e)[:200]))
+    if tests:
+        n = _native_verdicts(scratch, r, prop, tests, repo_dir, log)
+        if n:
+            return n
+    # 2. fall back to Kani's own concrete playback (unsliced; may not finish on large harnesses)
+    td = os.path.join(scratch, "t_replay")
+    if not os.path.isdir(td):
+        stage.fresh_target(td)
+    logpath = os.path.join(scratch, "replay_%s.log" % h.name)
+    res, cerr = run.run_group(repo_dir, h.crate, [h], td, h.cls, logpath,
+                              extra=["-Z", "concrete-playback", "--concrete-playback=print"], mem_extra=8)
+    txt = open(logpath, errors="replace").read()
+    ktests = [t for t in extract_tests(txt) if t["fq"] == h.fq and t["kind"] != "cover" and t["name"]]
+    want = set(c.desc for c in r.failed)
+    sel = [t for t in ktests if t["desc"] in want] or ktests
+    if not sel:
+        why = "solver error/memory cap during trace generation" if "Status: ERROR" in txt else ("time cap" if "timed out" in txt else "no test printed")
+        r.nonrepro.append("Kani playback gave no concrete values (%s)" % why)
+        return 0
+    seen, uniq = set(), []
+    for t in sel:
+        if t["desc"] in seen:
+            continue
+        seen.add(t["desc"])
+        uniq.append(t)
+    return _native_verdicts(scratch, r, prop, uniq, repo_dir, log)
 
 
 def replay_saved(path, log=print):
